@@ -480,7 +480,25 @@ class HookImpl(D.Impl):
     def __init__(self, policy_kind, rnd, hooks):
         D.Impl.__init__(self, policy_kind, rnd)
         self.hooks = hooks            # handle -> action (an event tuple) performed inside the success callback
-        self.hook_fired = []          # (index of the event during which it ran, action)
+        self.hook_fired = []          # (index of the event during which it ran, action): translated by insertion
+        self.native = set()           # handles whose hook is part of the model's alphabet (HMakeThen): not translated
+        self.native_fired = 0
+
+    def apply(self, ev):
+        """adds the event ("makethen", rid, action): makeRequest(rid, expectResponse=False) whose success callback
+        performs `action` (Model/BrokerClientHook.v HMakeThen)"""
+        if ev[0] != "makethen":
+            return D.Impl.apply(self, ev)
+        h = len(self.handles)
+        self.hooks[h] = ev[2]
+        self.native.add(h)
+        rec = D.Impl.apply(self, ("make", ev[1], False))
+        if len(self.handles) == h:
+            self.hooks.pop(h, None)
+            self.native.discard(h)
+        rec = (ev,) + tuple(rec[1:])
+        self.records[-1] = rec
+        return rec
 
     def _watch(self, d, h):
         D.Impl._watch(self, d, h)
@@ -493,7 +511,10 @@ class HookImpl(D.Impl):
             code = next((e[2] for e in reversed(self.log) if e[0] == "def" and e[1] == h), None)
             if code not in (1, 2):
                 return result
-            self.hook_fired.append((len(self.records), act))
+            if h in self.native:
+                self.native_fired += 1
+            else:
+                self.hook_fired.append((len(self.records), act))
             try:
                 self._dispatch(act, act[0], self.enabled(act), self.log)
             except Exception as e:
@@ -510,12 +531,24 @@ def run_hooked(events, hooks, pk="const"):
     return im
 
 
-def hooked_history(rnd, length):
+def enc_hcase(events, guard=1):
+    """case line of Model/BrokerClientHook.v"""
+    out = [guard]
+    for ev in events:
+        if ev[0] == "makethen":
+            a = ev[2]
+            out += [12, ev[1], 1, 0] if a[0] == "close" else [12, ev[1], 2, a[1]]
+        else:
+            out += D.enc_event(ev)
+    return out
+
+
+def hooked_history(rnd, length, native=False):
     hooks = {}
     im = HookImpl("const", None, hooks)
     events, nxt, extra = [], 1, 1000
     for _ in range(length):
-        opts = [("make", 25.0)]
+        opts = [("make", 25.0 if (im.transport() or not native) else 70.0)]
         if im.handles:
             opts.append(("cancel", 8.0))
         if im.attempt():
@@ -533,10 +566,12 @@ def hooked_history(rnd, length):
         if kind == "make":
             rid = rnd.choice(im.rids) if im.rids and rnd.random() < 0.05 else nxt
             nxt += 1
-            expect = rnd.random() > 0.15
+            expect = rnd.random() > (0.4 if native else 0.15)
             ev = ("make", rid, expect)
             h = len(im.handles)
-            if expect and rnd.random() < 0.6:
+            if native and not expect and rnd.random() < 0.75:
+                ev = ("makethen", rid, ("close",) if rnd.random() < 0.2 else ("cancel", rnd.randint(0, h + 3)))
+            if expect and rnd.random() < (0.2 if native else 0.6):
                 r = rnd.random()
                 if r < 0.2:
                     act = ("close",)
@@ -565,6 +600,24 @@ def hooked_history(rnd, length):
     return events, dict(hooks), im
 
 
+def generic_monitor(records, pid="C10"):
+    """statements that hold for EVERY history, re-entrant callbacks included: no Deferred fires twice
+    (C06_exactly_once), nothing is written for a request whose Deferred has fired (C06_nothing_after_fired /
+    C10_never_resent), no exception escapes that no legal behaviour includes"""
+    fired = {}
+    for idx, (ev, _c, outs, _en) in enumerate(records):
+        for o in outs:
+            if o[0] == "def":
+                if o[1] in fired:
+                    return ("C06_exactly_once", "Deferred %d fired twice" % o[1], idx)
+                fired[o[1]] = o[2]
+            elif o[0] == "write" and o[1] in fired:
+                return ("C06_nothing_after_fired" if pid == "C06" else "C10_never_resent", "request of handle %d written after its Deferred fired (code %d: 2 None, 3 cancelled, 4 closed)" % (o[1], fired[o[1]]), idx)
+            elif o == ("raised", 99):
+                return ("C06_exactly_once", "an exception escaped that no legal behaviour includes", idx)
+    return None
+
+
 def merge_segments(model_trace, counts):
     msegs, merged, j = split_trace(model_trace), [], 0
     for n in counts:
@@ -588,21 +641,25 @@ def hooked_model_case(events, hook_fired):
     return mev, counts
 
 
-def reentrant_part(ck, rnd, n, tied):
+def reentrant_part(ck, rnd, n, tied, native=False):
     label = "callbacks re-entering the client (close/makeRequest/cancel/disconnect from a reply callback) vs the model with the call as the next event"
+    if native:
+        label = ("close()/cancel() from the callback of a NO-REPLY request, fired in the middle of _sendQueued (Model/BrokerClientHook.v HMakeThen), "
+                 "plus re-entrant reply callbacks")
     cases, metas = [], []
     for _ in range(n):
-        events, hooks, im = hooked_history(rnd, rnd.choice([10, 25, 50]))
+        events, hooks, im = hooked_history(rnd, rnd.choice([10, 25, 50]), native)
         mev, counts = hooked_model_case(events, im.hook_fired)
-        cases.append(D.enc_case(mev))
-        metas.append((events, hooks, im.records, counts, len(im.hook_fired)))
+        cases.append(enc_hcase(mev) if native else D.enc_case(mev))
+        metas.append((events, hooks, im.records, counts, len(im.hook_fired) + im.native_fired))
         ck.hist("reentrant_calls", len(im.hook_fired))
+        ck.hist("reentrant_calls_from_no_reply_callbacks", im.native_fired)
         for _i, a in im.hook_fired:
             ck.hist("reentrant_" + a[0])
-    mo = ck.model(MODEL, cases)
+    mo = ck.model("brokerclienthook" if native else MODEL, cases)
     ndiff, first, raised = 0, None, None
     for i, ((events, hooks, records, counts, _nf), mt) in enumerate(zip(metas, mo)):
-        if raised is None and any(o == ("raised", 99) for r in records for o in r[2]):
+        if raised is None and generic_monitor(records, ck.pid):
             raised = i
         if merge_segments(mt, counts) != split_trace(D.enc_trace(records)):
             ndiff += 1
@@ -618,16 +675,20 @@ def reentrant_part(ck, rnd, n, tied):
     if raised is not None:
         events, hooks, records, counts, _nf = metas[raised]
 
+        thm0 = generic_monitor(records, ck.pid)[0]
+
         def failing(evs):
-            return any(o == ("raised", 99) for r in run_hooked(evs, hooks).records for o in r[2])
+            g = generic_monitor(run_hooked(evs, hooks).records, ck.pid)
+            return bool(g) and g[0] == thm0
         # dropping events renumbers handles, so only a suffix is cut off
         small = list(events)
         while len(small) > 1 and failing(small[:-1]):
             small = small[:-1]
         im = run_hooked(small, hooks)
-        ck.violation({"kind": "monitor: a call made from inside a reply callback raised an exception no legal behaviour includes",
-                      "theorem": "C06_exactly_once", "message": "exception %s" % getattr(im, "last_exc", "?"),
-                      "events": D.jsonable(small), "hooks": {str(k): D.jsonable([v])[0] for k, v in hooks.items()},
+        g = generic_monitor(im.records, ck.pid)
+        ck.violation({"kind": "monitor: a call made from inside a Deferred callback breaks the theorem",
+                      "theorem": g[0], "message": g[1] + ("; exception %s" % im.last_exc if hasattr(im, "last_exc") else ""),
+                      "events": D.jsonable(small), "hooks": {str(k): D.jsonable([v])[0] for k, v in hooks.items() if k < len(im.handles)},
                       "impl_outputs": [[D.jsonable([o])[0] for o in r[2]] for r in im.records], "replay_op": "bc-hook"})
     elif first is not None:
         events, hooks, records, counts, _nf = metas[first]
@@ -647,10 +708,14 @@ def replay_hook(rp):
     for ev, c, outs, en in im.records:
         print("  %-40r connected=%d %r" % (ev if ev[0] not in ("data", "frame") else (ev[0], list(ev[1])), c, outs))
         bad += sum(1 for o in outs if o == ("raised", 99))
+    g = generic_monitor(im.records, rp.get("property", "C10"))
+    print("monitor verdict now:", g)
+    bad += 1 if g else 0
     mev, counts = hooked_model_case(events, im.hook_fired)
-    exe = os.path.join(vlib.OUT, "run_" + MODEL)
+    native = any(e[0] == "makethen" for e in events)
+    exe = os.path.join(vlib.OUT, "run_" + ("brokerclienthook" if native else MODEL))
     if os.path.exists(exe):
-        p = subprocess.run([exe], input=(vlib.encode_line(D.enc_case(mev)) + "\n").encode(), stdout=subprocess.PIPE)
+        p = subprocess.run([exe], input=(vlib.encode_line(enc_hcase(mev) if native else D.enc_case(mev)) + "\n").encode(), stdout=subprocess.PIPE)
         mt = [int(x) for x in p.stdout.decode().split()]
         if merge_segments(mt, counts) != split_trace(D.enc_trace(im.records)):
             print("differs from the model run with the calls as next events:", mt)
